@@ -225,5 +225,16 @@ func H_C11_tv_strings() {
 
 // H_C11_tv_one: development aid (not registered): one sample, one parameter set.
 func H_C11_tv_one() {
-	tvCheck(tvSamples[0], "flatten_passes=1")
+	tvCheck(tvPick(true), "flatten_passes=1")
+}
+
+// H_C11_tv_two: development aid (not registered): the samples with defer / closures.
+func H_C11_tv_two() {
+	names := []string{"safeDiv", "deferOrder", "counter"}
+	want := names[symx.Choose(len(names))]
+	for _, s := range tvSamples {
+		if s.Name == want {
+			tvCheck(s, "flatten_passes=1")
+		}
+	}
 }
